@@ -2745,6 +2745,11 @@ fn convert_number_to_type2<'a>(
             extended: None,
           },
         })?;
+        // "-0" denotes the same number as "0"; as an `IntValue` it would print
+        // as "0" and come back as a `UintValue`
+        if val == 0 {
+          return Ok(ast::Type2::UintValue { value: 0, span });
+        }
         return Ok(ast::Type2::IntValue { value: val, span });
       }
       Rule::float_value => {
@@ -2822,6 +2827,9 @@ fn convert_number_to_type2<'a>(
             extended: None,
           },
         })?;
+        if val == 0 {
+          return Ok(ast::Type2::UintValue { value: 0 });
+        }
         return Ok(ast::Type2::IntValue { value: val });
       }
       Rule::float_value => {
